@@ -207,18 +207,21 @@ public:
     //! \brief Set the previously best known particle velocities.
     void setBestParticlePositions(const double bpp[]) {
         std::copy_n(bpp, num_dimensions * (num_particles + 1), best_particle_positions.begin());
+        std::fill(cache_best_particle_inside.begin(), cache_best_particle_inside.end(), true); // every entry holds a position
         best_positions_initialized = true;
     }
     //! \brief Sets the best position per particle.
     void setBestParticlePositions(const std::vector<double> &bpp) {
         checkVarSize("ParticleSwarmState::setBestParticlePositions", "best particle positions", bpp.size(), num_dimensions * (num_particles + 1));
         best_particle_positions = bpp;
+        std::fill(cache_best_particle_inside.begin(), cache_best_particle_inside.end(), true); // every entry holds a position
         best_positions_initialized = true;
     }
     //! \brief Sets the best position per particle, allows for a move.
     void setBestParticlePositions(std::vector<double> &&bpp) {
         checkVarSize("ParticleSwarmState::setBestParticlePositions", "best particle positions", bpp.size(), num_dimensions * (num_particles + 1));
         best_particle_positions = std::move(bpp);
+        std::fill(cache_best_particle_inside.begin(), cache_best_particle_inside.end(), true); // every entry holds a position
         best_positions_initialized = true;
     }
 
@@ -237,7 +240,8 @@ public:
         std::fill(cache_particle_fvals.begin(), cache_particle_fvals.end(), 0.0);
         std::fill(cache_particle_inside.begin(), cache_particle_inside.end(), false);
         std::fill(cache_best_particle_fvals.begin(), cache_best_particle_fvals.end(), 0.0);
-        std::fill(cache_best_particle_inside.begin(), cache_best_particle_inside.end(), false);
+        // cache_best_particle_inside is kept on purpose: an entry that is false never received a best known position (it holds a
+        // zero placeholder) and must not be evaluated as if it was a visited point when ParticleSwarm() rebuilds the cache
     }
 
     /*! \brief Randomly initializes all of the particle positions and velocities inside of a box.
